@@ -18,7 +18,10 @@ class Schema:
         :param name: schema name
         """
         if name:
-            self.raw_name = escape_identifier_name(name)
+            # db.schema is allowed as schema name, each part is an identifier of its own
+            self.raw_name = ".".join(
+                escape_identifier_name(part) for part in name.split(".")
+            )
         elif SQLLineageConfig.DEFAULT_SCHEMA:
             self.raw_name = escape_identifier_name(SQLLineageConfig.DEFAULT_SCHEMA)
         else:
